@@ -205,3 +205,60 @@ func VerifC14_repeat() {
 	}
 	vfSameSnap(before, vfSnapshot(t, key))
 }
+
+// VerifC14_environment: the same holds in every environment go-runewidth distinguishes (its
+// East-Asian-width rule is chosen from the locale before the program starts) and for text whose width
+// depends on that rule: rendering one format never changes how another format measures afterwards.
+func VerifC14_environment() {
+	vfRunewidthEastAsian(vfBool("env.eastasian"))
+	t := tabular.New()
+	t.AddHeaders("what", "value")
+	t.AddRowItems("tolerance", "±1 °C")
+	t.AddRowItems("αβ", "x")
+	rs := &vfRenderers{t: t}
+	// markdown, text utf8-light-curved (a kept renderer object), csv, html (kept), text utf8-light (a fresh one each time)
+	fmts := []int{2, 4 + 5, 0, 3, 4 + 4}
+	a := fmts[vfChoice("first", 3)]
+	b := fmts[vfChoice("between", len(fmts))]
+	out1, err1 := rs.render(a)
+	rs.render(b)
+	out2, err2 := rs.render(a)
+	vfAssert(vfAnd(err1 == nil, err2 == nil), "render-ok")
+	vfAssert(out1 == out2, "same-bytes-as-first-render")
+	vfObserveStr("out", out1)
+}
+
+// VerifC14_sharedrow: a row object listed in two tables; rendering either table, in any format,
+// leaves what both tables report (counts, texts, locations, properties) unchanged.
+func VerifC14_sharedrow() {
+	key := &vfUserKey{7}
+	t1, t2 := tabular.New(), tabular.New()
+	t1.AddHeaders("h1", "h2")
+	t2.AddHeaders("k1", "k2")
+	r := tabular.NewRow()
+	r.Add(tabular.NewCell("s1")).Add(tabular.NewCell("s2"))
+	if vfChoice("order", 2) == 0 {
+		t1.AddRowItems("a", "b")
+		t1.AddRow(r)
+		t2.AddRow(r)
+	} else {
+		t2.AddRow(r)
+		t1.AddRowItems("a", "b")
+		t1.AddRow(r)
+	}
+	r.SetProperty(key, 1)
+	b1, b2 := vfSnapshot(t1, key), vfSnapshot(t2, key)
+	which := vfChoice("render", 2)
+	f := vfChoice("format", 6)
+	var out string
+	var err error
+	if which == 0 {
+		out, err = (&vfRenderers{t: t1}).render(f)
+	} else {
+		out, err = (&vfRenderers{t: t2}).render(f)
+	}
+	vfAssert(err == nil, "render-ok")
+	vfSameSnap(b1, vfSnapshot(t1, key))
+	vfSameSnap(b2, vfSnapshot(t2, key))
+	vfObserveStr("out", out)
+}
